@@ -1,7 +1,13 @@
 use verif_core::*;
 
 pub mod c15;
+pub mod c17;
+pub mod c18;
 
 pub fn table() -> Vec<Prop> {
-    vec![Prop { id: "C15", run: c15::run, replay: c15::replay }]
+    vec![
+        Prop { id: "C15", run: c15::run, replay: c15::replay },
+        Prop { id: "C17", run: c17::run, replay: c17::replay },
+        Prop { id: "C18", run: c18::run, replay: c18::replay },
+    ]
 }
